@@ -116,6 +116,7 @@ struct RunFlags {
   bool joinable_destroyed = false;
   int threads_created = 0;
   int threads_joined = 0;
+  unsigned hardware_concurrency = 3; // what std::thread::hardware_concurrency() reports in this run
 };
 extern RunFlags g_flags;
 
@@ -149,7 +150,7 @@ public:
     id = -1;
   }
   void detach() { id = -1; }
-  static unsigned hardware_concurrency() noexcept { return 3; }
+  static unsigned hardware_concurrency() noexcept { return g_flags.hardware_concurrency; }
 
 private:
   void destroyed_joinable() {
@@ -409,7 +410,8 @@ static void run() {
   c.offset_kind = choose(5, "offset");
   c.slack = choose(9, "slack");
   c.threads = large ? 1 + choose(8, "threads.large") : choose(5, "threads"); // 0..4 (1..8 for long ranges)
-  c.eff_threads = c.threads == 0 ? 3 : c.threads;
+  unsigned hw = (unsigned)pick({3, 1, 2, 4}, "hardware_concurrency");
+  c.eff_threads = c.threads == 0 ? (int)hw : c.threads;
   c.block = 1;
   c.block_divides = true;
   if (c.func != 0) {
@@ -451,6 +453,7 @@ static void run() {
   sc.wake_early_den = (uint32_t)pick({0, 16, 4}, "sched.timer_early_rate");
   sc.step_budget = large ? 300000 : 30000;
   vshim::g_flags = vshim::RunFlags();
+  vshim::g_flags.hardware_concurrency = hw;
   vpar::reset(sc);
   if (sc.strategy != vpar::FIRST && c.eff_threads > 1 && c.len > 0) mark_nontrivial();
   static const char* FUNCS[] = {"parallel_range", "parallel_range_blocks", "parallel_range_blocks_multi"};
@@ -501,7 +504,7 @@ int main(int argc, char** argv) {
   e.thorough_cap_s = 900;
   e.rule =
       "one run = one configuration (function of the three, IntT of six, range length 0..6 [thorough 0..12, occasionally 13..120 with up to 8 threads] at offset 0/1/100/near the type's maximum/negative (ending at -1, 0 or 1), block size, "
-      "1..4 threads or 0=hardware_concurrency, set of values whose callback returns true, progress function nullptr/recorder/default) executed under one seeded "
+      "1..4 threads or 0=hardware_concurrency (reported as 1..4), set of values whose callback returns true, progress function nullptr/recorder/default) executed under one seeded "
       "schedule (strategy first/uniform/PCT/starve/round-robin; a scheduling point before every atomic operation, at thread start, join, sleep and inside the "
       "callback; progress timer may fire early); distinct = distinct hash of (configuration, sequence of (operation, from-task, to-task)); non-trivial = more than "
       "one worker, non-empty range and a strategy other than run-to-completion";
